@@ -1,10 +1,79 @@
 import BFL.Driver.Proto
-/- Driver entries of this group (stub: no operation handled yet). -/
+import BFL.Model.Quat
+/-
+Driver entries for the quaternion utilities (C18), executed over `Float`.
+
+  qexp  n r(3×n)                 -> "ok" branches 4n numbers          (rotation_vector_to_quaternion)
+  qlog  n q(4×n)                 -> "ok" branches 3n numbers          (quaternion_to_rotation_vector)
+  qsum  m n q(4×m) r(3×n)        -> "ok" branches 4n numbers          (sum_quaternion_rotation_vector, column 0 of q)
+  qdiff n m ql(4×n) qr(4×m)      -> "ok" branches 3n numbers          (diff_quaternion, column 0 of qr)
+  qmean n w(n) q(4×n) v(4)       -> "ok" M(16, column-major) λ=vᵀMv  residual M v − λ v (4)  vᵀv
+        (the eigenvector `v` returned by the implementation is an input: the model's `quatMean` takes
+         the eigen-solver as a parameter; the driver evaluates the contract's quantities on `v` with the
+         model's own `outerMean`)
+
+`branches` is a comma-separated list, one entry per column, of the model branch taken.
+-/
 namespace BFL.DriverQuat
-open BFL BFL.Proto
+open BFL BFL.Proto BFL.Quat
+
+def commas (l : List String) : String := if l.isEmpty then "-" else ",".intercalate l
+
+def qexp : R String := do
+  let n ← nat
+  let r ← matCM flt 3 n
+  done
+  let br := (List.finRange n).map fun j => quatExpBranch (V3.ofCol r j)
+  pure (join ("ok" :: commas br :: outMatCM floatStr (expBatch r)))
+
+def qlog : R String := do
+  let n ← nat
+  let q ← matCM flt 4 n
+  done
+  let br := (List.finRange n).map fun j => quatLogBranch (Q.ofCol q j)
+  pure (join ("ok" :: commas br :: outMatCM floatStr (logBatch q)))
+
+def qsum : R String := do
+  let m ← nat; let n ← nat
+  match m with
+  | 0 => failure
+  | m' + 1 =>
+    let q ← matCM flt 4 (m' + 1)
+    let r ← matCM flt 3 n
+    done
+    let br := (List.finRange n).map fun j => quatExpBranch (V3.ofCol r j)
+    pure (join ("ok" :: commas br :: outMatCM floatStr (sumBatch q r)))
+
+def qdiff : R String := do
+  let n ← nat; let m ← nat
+  match m with
+  | 0 => failure
+  | m' + 1 =>
+    let ql ← matCM flt 4 n
+    let qr ← matCM flt 4 (m' + 1)
+    done
+    let br := (List.finRange n).map fun j => quatLogBranch ((Q.ofCol ql j).mul (Q.ofCol qr 0).conj)
+    pure (join ("ok" :: commas br :: outMatCM floatStr (diffBatch ql qr)))
+
+def qmean : R String := do
+  let n ← nat
+  let w ← vec flt n
+  let q ← matCM flt 4 n
+  let v ← vec flt 4
+  done
+  let M := Mat.eval (outerMean w q)
+  let Mv := M.mulVec v
+  let lam := Vec.dot v Mv
+  let res := Vec.of (fun i => Mv i - lam * v i)
+  pure (join ("ok" :: outMatCM floatStr M ++ [floatStr lam] ++ outVec floatStr res ++ [floatStr (Vec.dot v v)]))
 
 def handle (op : String) (args : List String) : Option String :=
   match op with
+  | "qexp" => some ((run qexp args).getD "bad-args")
+  | "qlog" => some ((run qlog args).getD "bad-args")
+  | "qsum" => some ((run qsum args).getD "bad-args")
+  | "qdiff" => some ((run qdiff args).getD "bad-args")
+  | "qmean" => some ((run qmean args).getD "bad-args")
   | _ => none
 
 end BFL.DriverQuat
